@@ -13,10 +13,10 @@ func c04Check(prop, rule string, assumptions []string) *checkDef {
 		Level: "model_checking",
 		Run: func(c *runCtx) (map[string]interface{}, []string, []violation, error) {
 			depth, dl := 5, 170*time.Second
-			opts := map[string]interface{}{"max_inst": 3, "max_addr": 2}
+			opts := map[string]interface{}{"max_inst": 3, "max_addr": 2, "prop": prop}
 			if c.Tier == "thorough" {
 				depth, dl = 7, 25*time.Minute
-				opts = map[string]interface{}{"max_inst": 3, "max_addr": 3}
+				opts = map[string]interface{}{"max_inst": 3, "max_addr": 3, "prop": prop}
 			}
 			if d, ok := c.Args["depth"]; ok {
 				fmt.Sscan(d, &depth)
